@@ -4,8 +4,11 @@ import storecheck
 PLAN = {
     "mc": [("StoreMC_wait.cfg", False, True)],
     "sims": [("StoreSim_wait.cfg", 150, 1500, 61), ("StoreSim_wait2.cfg", 300, 2500, 61), ("StoreSim_acct.cfg", 60, 400, 61)],
-    "drivers": [("TestVerif_StoreFree", 4, 30, "store_free.ndjson", None)],
+    "drivers": [("TestVerif_StoreFree", 4, 30, "store_free.ndjson", None),
+                # loaders keep shard locks for 20-400 us while other clients write, evict and call Wait
+                ("TestVerif_StoreLoad", 40, 300, "store_load.ndjson", None)],
     "assumptions": [
+        "at every wake-up of the waiters (hook before the wake-up) the maintenance goroutine has no eviction begun and not concluded (slot removed or entry handed to the secondary workers) and owes no notification",
         "a call that does not return within 3 s of the end of its schedule is a hang only if a second execution of the same schedule hangs again",
         "barrier: every write event whose call returned before Wait was called (on any goroutine) has left sinkWrite, with its evictions and notifications, when Wait returns; events are matched as bags of (entry, code, delta); not compared with the entry pool on",
     ],
